@@ -590,6 +590,17 @@ func RunCrashScenario(sc *Scenario) (vd *Verdict) {
 				}
 			}
 			mgmt = true
+		case "createMany":
+			for k := 0; k < op.N && werr == nil; k++ {
+				name := fmt.Sprintf("many%04d", k)
+				_, werr = r.H.Dsm.CreateDataset(name, nil)
+				if werr == nil {
+					r.M.Create(name)
+					r.settings[name] = dsSettings{}
+				}
+			}
+			r.Stats["datasets_created_in_bulk"] += int64(op.N)
+			mgmt = true
 		case "createDataset":
 			st := settingsFromOp(op)
 			if r.H.Dataset(op.DS) == nil {
